@@ -230,6 +230,24 @@ func gen(r *rand.Rand, idx int, tier string) Input {
 		}
 		in.MS = append(in.MS, treeu.Stack{Key: k, V: v})
 	}
+	wide := !binary && lib.Chance(r, 0.1)
+	if wide {
+		// a trie node with 17..40 children; stacks through its smallest and largest lead byte come again afterwards
+		in.MS = in.MS[:0]
+		keys, lo, hi := trieu.WideKeys(r, lib.Pick(r, [][]byte{{}, []byte("main;")}), lib.Range(r, 17, 40), true)
+		val := func() uint64 {
+			if small {
+				return uint64(lib.Range(r, 1, 6))
+			}
+			return uint64(lib.Range(r, 1, 100000))
+		}
+		for _, k := range keys {
+			in.MS = append(in.MS, treeu.Stack{Key: k, V: val()})
+		}
+		for _, k := range [][]byte{lo, append(append([]byte{}, lo...), 'z'), hi, lo, append(append([]byte{}, hi...), ';', 'g'), hi} {
+			in.MS = append(in.MS, treeu.Stack{Key: k, V: val()})
+		}
+	}
 	ok := true
 	for _, s := range in.MS {
 		if !textOK(s.Key) {
@@ -237,13 +255,16 @@ func gen(r *rand.Rand, idx int, tier string) Input {
 		}
 	}
 	in.Class = "text"
+	if wide {
+		in.Class = "wide"
+	}
 	in.Formats = []string{"trie", "tree"}
 	if ok {
 		in.Formats = append(in.Formats, "groups")
 		if small {
 			in.Formats = append(in.Formats, "lines")
 		}
-	} else {
+	} else if !wide {
 		in.Class = "binary"
 	}
 	if !small {
